@@ -40,7 +40,9 @@ def fops : FloatOps Float where
   lt a b := a < b
   le a b := a ≤ b
   eq a b := a == b
-  ofInt i := if i < 0 then (Int64.ofInt i).toFloat else (UInt64.ofNat i.toNat).toFloat
+  ofInt i :=
+    if i < -(2 ^ 63) ∨ 2 ^ 64 ≤ i then Float.ofInt i          -- only the bound 2^64 of `eval` (exact)
+    else if i < 0 then (Int64.ofInt i).toFloat else (UInt64.ofNat i.toNat).toFloat
   ofIntF32 i := if i < 0 then (Int64.ofInt i).toFloat32.toFloat else (UInt64.ofNat i.toNat).toFloat32.toFloat
   toInt f := if f < 0 then f.toInt64.toInt else (f.toUInt64.toNat : Int)
   toF32 f := f.toFloat32.toFloat
